@@ -580,6 +580,7 @@ type RegGenOpts struct {
 	RandLen  int  // ops per random scenario
 	Shard    int  // this process handles genesis configurations i with i % Shards == Shard
 	Shards   int
+	Scripted bool  // also run the scripted scenarios
 	Cfgs     []int // genesis configurations of the tree part (nil = all)
 	FullEach bool // full probe matrix at every node (otherwise at leaves and accepted ops; reduced elsewhere)
 }
@@ -732,6 +733,35 @@ func GenRegistry(w *trace.W, o RegGenOpts) RegStats {
 		dfs(root, 0, func(oi int) bool { return (base+oi)%shards == o.Shard })
 		item += len(first)
 	}
+	// scripted linear scenarios (shard 0): situations the alphabet of the tree does not contain
+	if o.Shard == 0 && o.Scripted {
+		for si, sc := range scripted() {
+			r := newRegRun(sc.g, toks, 6)
+			tid := fmt.Sprintf("script-%d", si)
+			w.Emit(r.genesisLine(tid, sc.g, ProbePlan{Full: true}))
+			st.Traces++
+			st.Nodes++
+			for k, op := range sc.ops {
+				opj, res := r.Apply(op)
+				line := trace.M{"ev": "Op", "d": k, "op": opj, "res": res, "reg": r.Project(), "txt": op.String()}
+				if r.versionAbove1() {
+					line["probe"], line["full"], line["noprobe"] = trace.M{}, false, true
+				} else {
+					probe, n := r.Probe(ProbePlan{Full: true})
+					st.Probes += n
+					line["probe"], line["full"] = probe, true
+				}
+				w.Emit(line)
+				st.Nodes++
+				if res["ok"].(bool) {
+					st.Accepted++
+				} else {
+					st.Rejected++
+				}
+				st.Classes[op.K+"/"+fmt.Sprint(res["ok"])]++
+			}
+		}
+	}
 	// random linear scenarios
 	rng := rand.New(rand.NewSource(o.Seed))
 	for i := 0; i < o.Random; i++ {
@@ -793,6 +823,30 @@ func firstVisit(seen map[string]bool, r *RegRun) bool {
 	}
 	seen[k] = true
 	return true
+}
+
+type script struct {
+	g   genCfg
+	ops []Op
+}
+
+func scripted() []script {
+	cfgs := genCfgs()
+	erc := func(sender, denom string) Op {
+		return Op{K: "DeployErc20", Sender: sender, Denom: denom, Name: "tok" + denom, Symbol: "T" + strings.ToUpper(denom), Decimals: 9}
+	}
+	gov := func(wl []string, ver uint32) Op { return Op{K: "UpdateParams", Route: "gov", Sender: "val", WL: wl, Ver: ver} }
+	return []script{
+		// a later protocol version exists (fabricated in the store): going back must be refused, unknown versions too
+		{cfgs[0], []Op{{K: "RawVersion", Ver: 2}, gov([]string{"w"}, 1), gov([]string{"w"}, 2), gov([]string{"w"}, 0), gov([]string{"w"}, 3), erc("w", chain.Denom2)}},
+		// disable / enable / type change / redeploy over an existing address / duplicates
+		{cfgs[0], []Op{erc("w", chain.Denom2), {K: "SetDisabled", Addr: "dyn0", Flag: true}, {K: "SetDisabled", Addr: "dyn0", Flag: false},
+			{K: "Retype", Addr: "dyn0", Flag: false}, {K: "Retype", Addr: "dyn0", Flag: true}, {K: "Retype", Addr: "b32", Flag: false},
+			erc("w", chain.Denom2), erc("w", DenomThree), {K: "SetDisabled", Addr: "dyn1", Flag: true}, {K: "SetDisabled", Addr: "eoa", Flag: true}}},
+		{cfgs[3], []Op{{K: "SetDisabled", Addr: "stk", Flag: true}, {K: "DeployStaking", Sender: "w", Symbol: "STK", Decimals: 18}, {K: "SetDisabled", Addr: "dyn0", Flag: true},
+			{K: "SetDisabled", Addr: "stk", Flag: false}, {K: "Retype", Addr: "stk", Flag: false}, {K: "Retype", Addr: "stk", Flag: true}, erc("w", chain.Denom),
+			gov(nil, 1), erc("w", chain.Denom2), gov([]string{"n"}, 1), erc("n", chain.Denom2), erc("w", DenomThree)}},
+	}
 }
 
 func (r *RegRun) versionAbove1() bool { return DumpReg(r.C).Params.ProtocolVersion > 1 }
